@@ -226,14 +226,34 @@ func buildPhases() []phase {
 				obj := sp.gen(x.g)
 				return job{func() *Case { return checkRoundtrip(sp, obj) }}
 			})
+			// re-use of a pack object: encode, change fields, encode again (classes.go)
+			x.batches(x.base*sp.n/100/25, func() job { return reuseJob(sp, x.g) })
 		}})
 	}
 	// containers and record lists
 	ps = append(ps, phase{"ZipPack.records", func(x *runCtx) { x.batches(x.base/4, func() job { return zipJob(x.g) }) }})
-	ps = append(ps, phase{"LogSinkZipPack.records", func(x *runCtx) { x.batches(x.base/4, func() job { return logSinkZipJob(x.g) }) }})
+	ps = append(ps, phase{"LogSinkZipPack.records", func(x *runCtx) {
+		x.batches(x.base/4, func() job { return logSinkZipJob(x.g) })
+		// payloads of about 1, 8-, 8+ and 20 MiB through the compressing container
+		rounds := 1
+		if x.env.Thorough {
+			rounds = 3
+		}
+		i := 0
+		x.batches(rounds*len(bigPayloadTargets), func() job { i++; return bigLogSinkZipJob(x.g, bigPayloadTargets[(i-1)%len(bigPayloadTargets)]) })
+	}})
 	for _, k := range recKinds {
 		k := k
-		ps = append(ps, phase{k.packName + ".records", func(x *runCtx) { x.batches(x.base/4, func() job { return recordsJob(x.g, k) }) }})
+		ps = append(ps, phase{k.packName + ".records", func(x *runCtx) {
+			x.batches(x.base/4, func() job { return recordsJob(x.g, k) })
+			// tables at the boundaries of the 16-bit count field
+			rounds := 1
+			if x.env.Thorough {
+				rounds = 3
+			}
+			i := 0
+			x.batches(rounds*len(recCountBoundaries), func() job { i++; return boundaryRecordsJob(x.g, k, recCountBoundaries[(i-1)%len(recCountBoundaries)]) })
+		}})
 	}
 	return ps
 }
@@ -242,7 +262,8 @@ func describe(rep *vh.Report) {
 	rep.Rule = "per pack / record / element type: objects built from the type's constructor and filled by reflection " +
 		"(integer boundaries of every width, float bit patterns incl. NaN payloads, strings of length 0..70000 with arbitrary bytes, " +
 		"nil vs empty vs populated optional sections, tables of 0..300 rows, all 20 value types nested to depth 3, both header forms, " +
-		"nested packs to depth 3); containers and record lists with 0..300 items; " +
+		"nested packs to depth 3); containers and record lists with 0..300 items, record lists also at the 16-bit count boundaries 0,1,255,256,32767,32768,65535, " +
+		"compressed container payloads of 1, 8-, 8+ and 20 MiB; every type also re-used (encode, change scalar fields incl. back to zero, encode again vs a fresh pack; repeat encoding; buffer aliasing); " +
 		"non-trivial = the encoding is longer than the bare type tag + header; distinct = distinct type+field dumps"
 	rep.Note("format caps respected by the generators (limits of the wire format, not defects): HitMapPack1.Hit/Error carried as unsigned 16 bit (values 0..65535, exactly 120 slots); " +
 		"EventPack attribute count is one byte (<= 250 user attributes, the four reserved keys _esca_/_uuid_/_status_/_otype_ are not used as user keys); " +
